@@ -200,6 +200,18 @@ def createPayment (s : State) (source extId target : String) : Except String Sta
 /-- a governance-only handler: `if authority != msg.Authority { return err }` -/
 def govAllowed (s : State) (caller : String) : Bool := caller == s.authority
 
+/-- What a governance-only request carries besides its `Authority`: the market its market-id
+field names, the account its address-typed fields name (record address, target, recipient, new
+administrator, new oracle, sanctioned address, access-grant holder …), the denom of its
+denom/coin fields, the kind of name of its name record. None of it takes part in the decision
+whether the caller may use the endpoint (`gov_result_ignores_payload_and_standing`). -/
+structure GovPayload where
+  market : Nat := 0
+  subject : String := ""
+  denom : String := ""
+  nameKind : String := ""
+  deriving DecidableEq, Repr
+
 /-- The operations of a history (what the harness drives through the real msg server). -/
 inductive Op where
   | perms (admin : String) (m : Nat) (u : PermUpdate)
@@ -211,7 +223,7 @@ inductive Op where
   | reject (source ext signer : String)
   | cancelpay (signer ext : String)
   | retarget (signer ext newTarget : String)
-  | gov (name caller : String)
+  | gov (name caller : String) (payload : GovPayload)
 
 def opResult (r : Except String State) (s : State) : State × String :=
   match r with
@@ -231,7 +243,7 @@ def applyOp (s : State) : Op → State × String
   | .reject source ext signer => opResult (rejectPayment s source ext signer) s
   | .cancelpay signer ext => opResult (cancelPayment s signer ext) s
   | .retarget signer ext nt => opResult (changeTarget s signer ext nt) s
-  | .gov _ caller => (s, if govAllowed s caller then "pass" else "err:authority")
+  | .gov _ caller _ => (s, if govAllowed s caller then "pass" else "err:authority")
 
 def run (s : State) (ops : List Op) : State := ops.foldl (fun s op => (applyOp s op).1) s
 
